@@ -81,7 +81,20 @@ def run(ctx):
         'open tag; their scan events cover the whole text). All added documents also go through the model. '
         'Character classes name_start_char / name_char: implementation against the XML productions (oracle) and against '
         'the model on U+0000..U+FFFF completely, every range border +-2 on all planes, every decimal digit, and a stride '
-        'over the astral planes (thorough: all of U+0000..U+10FFFF).')
+        'over the astral planes (thorough: all of U+0000..U+10FFFF). '
+        'Added (harness/html_gen_x.py, YBuilder; %d documents, every position, also through the model): VALUE x PRESENCE '
+        '-- next to `name` and `name=value` the form `name=` with NOTHING after the equals sign (`=` directly before `>`, '
+        '`/>`, ` />`, or before white space and the next attribute; after plain, directive and bracketed names; in paired, '
+        'self-closed, void and raw-text elements): such an attribute has no value, its record is the name range only, and '
+        'the tag ends where it would without the `=`; the written empty values `""`, `\'\'`, `{}` as values of length 2. '
+        'BACKSLASH -- backslashes wherever a tag may hold them: in paired tokens (expression values `{...}`, bracketed '
+        'names `[...]` `(...)` `{...}`) a backslash takes the next character out of the pairing, so `\\}` `\\]` `\\)` '
+        'do not close, `\\{` `\\[` `\\(` do not open, `\\"` starts no string, a doubled backslash escapes nothing '
+        '(regular-expression literals `{/\\}>/}`, escaped quotes inside strings of an expression, `>` and `/>` behind an '
+        'escaped closer, nesting); unquoted values with backslashes at any place (no meaning there, also last before `>`); '
+        'quoted values with backslashes where JavaScript-style and HTML-style reading agree (doubled, or before a character '
+        'that is neither the quote nor a backslash). Domain notes of html_gen that no longer hold for these documents: '
+        '"no backslash in attribute values".' % (56 if quick else 560))
     docs = []
     for name, obj in load_corpus('C09'):
         docs.append(('corpus:' + name, html_gen.doc_from_json(obj['doc'] if 'doc' in obj else obj)))
@@ -93,6 +106,11 @@ def run(ctx):
     for i in range(n_x):
         docs.append(('genx:%d' % i, html_gen_x.gen_document_x(
             rng, xml=(i % 3 == 2), names=('alphabet' if i % 2 else 'plain'), specials=(0.12 if i % 4 < 2 else 0.03))))
+    # VALUE x PRESENCE and BACKSLASH classes (harness/html_gen_x.py: YBuilder)
+    n_y = 56 if quick else 560
+    for i in range(n_y):
+        docs.append(('geny:%d' % i, html_gen_x.gen_document_y(
+            rng, xml=(i % 3 == 2), names=('alphabet' if i % 4 == 3 else 'plain'), p_new=(0.5 if i % 2 else 0.8))))
     sweep = html_gen_x.alphabet_sweep_docs()
     sweep_pos = {}
     for i, (d, ps) in enumerate(sweep):
